@@ -6,9 +6,102 @@ package main
 import (
 	"fmt"
 	"os"
+	"sync"
+
+	"github.com/kubewharf/kubebrain/pkg/backend/tso"
 
 	"kbverif/lib"
 )
+
+// tsoStress runs the real allocator: dealers call Deal(), one goroutine calls Deal() and then
+// Commit(rev+ahead) (a revision ahead of the counter, as leader hand-over / follower sync do),
+// another commits revisions behind the counter (as the sequencer does). Returns what each
+// goroutine was dealt, in order.
+func tsoStress(rnd *lib.Rand, dealers, per int) [][]uint64 {
+	t := tso.NewTSO()
+	t.Init(1000)
+	out := make([][]uint64, dealers+2)
+	for i := range out {
+		out[i] = make([]uint64, 0, per)
+	}
+	var wg sync.WaitGroup
+	start := make(chan struct{})
+	for g := 0; g < dealers; g++ {
+		g := g
+		wg.Add(1)
+		go func() {
+			defer wg.Done()
+			<-start
+			buf := out[g]
+			for i := 0; i < per; i++ {
+				r, _ := t.Deal()
+				buf = append(buf, r)
+			}
+			out[g] = buf
+		}()
+	}
+	ahead := uint64(1 + rnd.Intn(2))
+	wg.Add(2)
+	go func() { // commits ahead of the counter
+		defer wg.Done()
+		<-start
+		buf := out[dealers]
+		for i := 0; i < per; i++ {
+			r, _ := t.Deal()
+			buf = append(buf, r)
+			t.Commit(r + ahead)
+		}
+		out[dealers] = buf
+	}()
+	go func() { // commits behind the counter
+		defer wg.Done()
+		<-start
+		buf := out[dealers+1]
+		for i := 0; i < per; i++ {
+			r, _ := t.Deal()
+			buf = append(buf, r)
+			if r > 3 {
+				t.Commit(r - 3)
+			}
+		}
+		out[dealers+1] = buf
+	}()
+	close(start)
+	wg.Wait()
+	return out
+}
+
+// tsoTrim keeps the case small for coqc: around a duplicate if there is one, else a prefix.
+func tsoTrim(ds [][]uint64) ([][]uint64, bool) {
+	seen := map[uint64]bool{}
+	var dupv uint64
+	dup := false
+	for _, d := range ds {
+		for _, r := range d {
+			if seen[r] && !dup {
+				dup, dupv = true, r
+			}
+			seen[r] = true
+		}
+	}
+	out := make([][]uint64, len(ds))
+	for g, d := range ds {
+		if !dup {
+			n := len(d)
+			if n > 120 {
+				n = 120
+			}
+			out[g] = d[:n]
+			continue
+		}
+		for _, r := range d {
+			if r+15 >= dupv && r <= dupv+15 {
+				out[g] = append(out[g], r)
+			}
+		}
+	}
+	return out, dup
+}
 
 func main() {
 	lib.QuietLogs()
@@ -57,6 +150,32 @@ func main() {
 			w.Add(lib.Case{Coq: c.Coq(), JSON: c.JSON(), Kind: kind, Trivial: len(c.Writes) == 0, Outcomes: outs})
 		}
 		n.Close()
+	}
+
+	// allocator stress (true concurrency, so not replayable step by step: the case records what was dealt)
+	ntso := map[string]int{"quick": 20, "thorough": 300, "search": 80}[args.Tier]
+	if ntso == 0 {
+		ntso = 20
+	}
+	for i := 0; i < ntso; i++ {
+		full := tsoStress(rnd, 6, 20000)
+		ds, dup := tsoTrim(full)
+		xs := make([]string, len(ds))
+		js := []interface{}{}
+		for g, d := range ds {
+			ys := make([]string, len(d))
+			for j, r := range d {
+				ys[j] = lib.N(r)
+			}
+			xs[g] = lib.List(ys)
+			js = append(js, d)
+		}
+		outs := []string{"tso_ok"}
+		if dup {
+			outs = []string{"tso_duplicate_revision"}
+		}
+		w.Add(lib.Case{Coq: lib.App("C2Tso", lib.List(xs)), JSON: map[string]interface{}{"tso_stress_dealt_per_goroutine_excerpt": js, "deals_per_goroutine": 20000},
+			Kind: "tso-stress", Trivial: false, Outcomes: outs})
 	}
 
 	lib.KBDrive(w, args, lib.KBProfile{Prop: "C02", Malformed: 15, ErrPct: 5, AbortPct: 3,
